@@ -335,7 +335,15 @@ func (g *G) genGrid(id string) *History {
 			hdr = append(hdr, g.ccLines(cc)...)
 		}
 		if g.chance(0.05) {
+			if g.chance(0.3) {
+				// the client's validator behind an empty first field line (the list `, "client"`)
+				hdr = append(hdr, [2]string{"If-None-Match", ""})
+			}
 			hdr = append(hdr, [2]string{"If-None-Match", `"client"`})
+		}
+		if g.chance(0.04) {
+			// the client's own date: behind a stored ETag the origin ignores it (If-None-Match takes precedence)
+			hdr = append(hdr, [2]string{"If-Modified-Since", "Sat, 01 Jan 2000 00:00:00 GMT"})
 		}
 		fg := g.validationReply(at, st)
 		bg := g.validationReply(at, st)
